@@ -29,7 +29,11 @@ func NewMemoryState[T public_types.PersistentType]() public_types.SharedStateI[T
 }
 
 func (p *memoryState[T]) WithClock(clock clock.Clock) public_types.SharedStateI[T] {
+	// called again whenever a quota group object is created, while other
+	// transactions read the clock under the mutex
+	p.mutex.Lock()
 	p.clock = clock
+	p.mutex.Unlock()
 	return p
 }
 
